@@ -80,6 +80,13 @@ def substitute(
         # The fun thing is we can't even cast to _T because mypy knows that it's a redundant cast C:
         return substitute_text(obj, replacements, diagnostics)  # type: ignore
 
+    if isinstance(obj, list):
+        # e.g. a step with several actions
+        new_list = [substitute(item, replacements, diagnostics) for item in obj]
+        if any(new is not old for new, old in zip(new_list, obj)):
+            return new_list  # type: ignore
+        return obj
+
     if not dataclasses.is_dataclass(obj):
         return obj
 
@@ -91,6 +98,10 @@ def substitute(
             if new_str is not value:
                 changes[obj_field.name] = new_str
         elif not isinstance(value, type) and dataclasses.is_dataclass(value):
+            new_value = substitute(value, replacements, diagnostics)
+            if new_value is not value:
+                changes[obj_field.name] = new_value
+        elif isinstance(value, list):
             new_value = substitute(value, replacements, diagnostics)
             if new_value is not value:
                 changes[obj_field.name] = new_value
